@@ -159,7 +159,7 @@ def tendon_section(names, *, spatial_sites=None, limited=False, friction=False, 
 
 
 def actuator_section(names, nbody, level=1, has_tf=False, has_ts=False):
-    """Actuator menu.  level 1: quick subset; level 2: everything MJX claims to support."""
+    """Actuator menu.  level 1: quick subset; level 2: everything MJX claims to support; level 3: + refsite transmission."""
     sc = names["scalar"]
     a = []
     if sc:
@@ -187,7 +187,7 @@ def actuator_section(names, nbody, level=1, has_tf=False, has_ts=False):
     if has_ts and level >= 2:
         a.append('<motor name="a_ts" tendon="ts" gear="1.1"/>')
     a.append('<motor name="a_site" site="s%d" gear="0.5 -0.2 0.9 0.1 0.3 -0.6"/>' % (nbody - 1))
-    if nbody >= 2 and level >= 2:
+    if nbody >= 2 and level >= 3:   # refsite transmissions change actuator_acc0 (version-skew prone): only in a few models
         a.append('<general name="a_siteref" site="s%d" refsite="t0" gear="1 0.3 -0.4 0.2 -0.5 0.6" biastype="affine" biasprm="0 -3 0"/>' % (nbody - 1))
     return "  <actuator>\n    %s\n  </actuator>\n" % "\n    ".join(a)
 
